@@ -539,6 +539,17 @@ class Interp(object):
             a = self._operand(op["a"])
             b = self._operand(op["b"])
             return [canon(hash(a) == hash(b)), canon(a == b)]
+        if kind == "cmp":
+            # self-contained comparison: both operands are constructed inside the op
+            pair = []
+            for side in (op["a"], op["b"]):
+                if side.get("how") == "rh":
+                    pair.append(classes[side["cls"]].from_rh_vector(side["s"]))
+                else:
+                    pair.append(classes[side["cls"]](side["s"]))
+            a, b = pair
+            return [canon(a == b), canon(b == a), canon(a != b), canon(hash(a) == hash(b)),
+                    canon(len(set([a, b]))), canon(a.clean_vector() == b.clean_vector())]
         if kind == "hash_twice":
             a = self._operand(op["a"])
             return canon(hash(a) == hash(a))
